@@ -99,28 +99,39 @@ def all_v_files():
     return sorted(out)
 
 
-def scan_forbidden():
-    """grep the whole development (hand-written and generated) for anything that
-    declares an axiom or switches a kernel check off."""
+def _strip_comments(txt):
+    prev = None
+    while prev != txt:
+        prev = txt
+        txt = re.sub(r"\(\*(?:(?!\(\*|\*\)).)*?\*\)", " ", txt, flags=re.S)
+    return txt
+
+
+def scan_forbidden(props_rel=None, extract=None):
+    """grep the development for anything that declares an axiom or switches a kernel
+    check off.  With props_rel: the transitive closure of Props/Cxx.v (what the
+    property's theorems rest on) plus the property's Extract.v; without: every .v file."""
+    files = []
+    if props_rel is None:
+        for base in (THEORIES, EXTRACT):
+            for d, _, fs in os.walk(base):
+                files += [os.path.join(d, f) for f in fs if f.endswith(".v")]
+    else:
+        files = [os.path.join(COQ, f) for f in coq_deps_of("theories/" + props_rel)]
+        if extract:
+            ev = os.path.join(EXTRACT, extract, "Extract.v")
+            if os.path.exists(ev):
+                files.append(ev)
     hits = []
-    dirs = [THEORIES, EXTRACT]
-    for base in dirs:
-        for d, _, fs in os.walk(base):
-            for f in fs:
-                if not f.endswith(".v"):
-                    continue
-                p = os.path.join(d, f)
-                with open(p, errors="replace") as fh:
-                    txt = fh.read()
-                # strip comments (non-nested is enough for our files; nested handled by loop)
-                prev = None
-                while prev != txt:
-                    prev = txt
-                    txt = re.sub(r"\(\*[^()]*?\*\)", " ", txt, flags=re.S)
-                    txt = re.sub(r"\(\*(?:(?!\(\*).)*?\*\)", " ", txt, flags=re.S)
-                for i, line in enumerate(txt.split("\n"), 1):
-                    if FORBIDDEN.search(line):
-                        hits.append("%s:%d: %s" % (os.path.relpath(p, ROOT), i, line.strip()[:120]))
+    for p in sorted(set(files)):
+        try:
+            with open(p, errors="replace") as fh:
+                txt = _strip_comments(fh.read())
+        except FileNotFoundError:
+            continue
+        for i, line in enumerate(txt.split("\n"), 1):
+            if FORBIDDEN.search(line):
+                hits.append("%s:%d: %s" % (os.path.relpath(p, ROOT), i, line.strip()[:120]))
     return hits
 
 
